@@ -1,5 +1,6 @@
 import EoVerif.Generated.SrcEnc
 import EoVerif.Model.Enc
+import EoVerif.Lemmas.PyLoops
 /-!
   # Source tie for `eolib/encrypt/encryption_utils.py` (C10)
 
@@ -12,32 +13,6 @@ namespace EoVerif.SrcTie
 open EoVerif
 
 def ofBytesE (bs : Bytes) : List Int := bs.map Int.ofNat
-
-/-- a `for i in range(len(xs))` loop that rewrites position `i` from its old value only is a `map` -/
-theorem map_loop (P : Int → Prop) (f : Int → Int) (body : Int → List Int → Py.M (List Int × Bool))
-    (hbody : ∀ (done : List Int) (c : Int) (rest : List Int), P c →
-        body (done.length : Int) (done ++ c :: rest) = .ok (done ++ f c :: rest, false))
-    (suf : List Int) : (∀ c ∈ suf, P c) → ∀ done : List Int,
-      Py.forRangeGo body suf.length (done.length : Int) (done ++ suf) = .ok (done ++ suf.map f) := by
-  induction suf with
-  | nil => intro _ done; simp [Py.forRangeGo]
-  | cons c cs ih =>
-    intro hP done
-    have hb := hbody done c cs (hP c (by simp))
-    rw [List.length_cons, Py.forRangeGo_step _ _ _ _ _ hb]
-    have h := ih (fun x hx => hP x (by simp [hx])) (done ++ [f c])
-    simp only [List.length_append, List.length_cons, List.length_nil, Nat.zero_add, Int.natCast_add, Int.natCast_one,
-      List.append_assoc, List.singleton_append] at h
-    rw [h]; simp
-
-theorem map_main (P : Int → Prop) (f : Int → Int) (body : Int → List Int → Py.M (List Int × Bool))
-    (hbody : ∀ (done : List Int) (c : Int) (rest : List Int), P c →
-        body (done.length : Int) (done ++ c :: rest) = .ok (done ++ f c :: rest, false))
-    (xs : List Int) (hP : ∀ c ∈ xs, P c) :
-    Py.bind (Py.forRangeGo body xs.length 0 xs) (fun data => Except.ok data) = .ok (xs.map f) := by
-  have key := map_loop P f body hbody xs hP []
-  simp only [List.length_nil, Int.natCast_zero, List.nil_append] at key
-  rw [key]; rfl
 
 /-! ### flip_msb -/
 
